@@ -28,6 +28,11 @@ func (a *hSchema) clone() *hSchema {
 
 // renameAll applies f to every identifier of the schema consistently.
 func (a *hSchema) renameAll(f func(kind, name string) string) {
+	a.renameAllScoped(func(string) {}, f)
+}
+
+// renameAllScoped: enter(t) is called with the (new) table name before the columns of t are renamed.
+func (a *hSchema) renameAllScoped(enter func(string), f func(kind, name string) string) {
 	tn := func(n string) string { return f("table", n) }
 	for i := range a.Tables {
 		t := &a.Tables[i]
@@ -35,6 +40,7 @@ func (a *hSchema) renameAll(f func(kind, name string) string) {
 	}
 	for i := range a.Tables {
 		t := &a.Tables[i]
+		enter(t.Name)
 		cmap := map[string]string{}
 		for j := range t.Cols {
 			n := f("column", t.Cols[j].Name)
@@ -127,6 +133,19 @@ func (a *hSchema) renameAll(f func(kind, name string) string) {
 			fix(t, &t.FKs[j])
 		}
 	}
+}
+
+// renameCols renames columns of one table (and every reference to them).
+func (a *hSchema) renameCols(table string, ren map[string]string) {
+	cur := ""
+	a.renameAllScoped(func(t string) { cur = t }, func(kind, n string) string {
+		if kind == "column" && cur == table {
+			if v, ok := ren[n]; ok {
+				return v
+			}
+		}
+		return n
+	})
 }
 
 // replaceRef replaces whole-token occurrences of a column reference inside an expression.
@@ -246,17 +265,24 @@ var repairs = []repair{
 		a.renameAll(func(_, n string) string { return replaceFold(n, "new_", "nw_") })
 	}},
 	{name: "prefix-column-names", ast: func(a *hSchema) {
-		a.renameAll(func(kind, n string) string {
-			if kind == "column" {
-				switch n {
-				case "cx":
-					return "xc"
-				case "cxy":
-					return "yxc"
+		// a column whose name is a proper prefix of a sibling's name gets a name that is not
+		for i := range a.Tables {
+			t := &a.Tables[i]
+			ren := map[string]string{}
+			for j := range t.Cols {
+				for k := range t.Cols {
+					x, y := strings.ToLower(t.Cols[j].Name), strings.ToLower(t.Cols[k].Name)
+					if j != k && len(x) < len(y) && strings.HasPrefix(y, x) {
+						ren[t.Cols[j].Name] = fmt.Sprintf("zq%d_%s", j, t.Cols[j].Name)
+					}
 				}
 			}
-			return n
-		})
+			if len(ren) == 0 {
+				continue
+			}
+			tname := t.Name
+			a.renameCols(tname, ren)
+		}
 	}},
 	{name: "type-with-comma", ast: func(a *hSchema) {
 		eachDefault(a, func(c *hCol) {
